@@ -363,6 +363,8 @@ def gen_program(rng, kind, nshared, nops, use_spq=False):
             ops.append('ctx'); live = []
             ops.append('wkb P0 %s' % scan.hexwkb(gen_geom(rng))); live = [0]
             continue
+        if use_spq and sh_ok and nshared and rng.random() < 0.15:       # rounds that share a prepared geometry query it often (C13-F5 / C13-F7 regressions)
+            ops.append('spq %s' % operand(True)); continue
         r = rng.random()
         if r < 0.22: ops.append('%s %s' % (rng.choice(UV), operand(sh_ok)))
         elif r < 0.45:
@@ -541,7 +543,7 @@ def run(ctx):
         all_spq = os.environ.get('VERIF_C13_SPQ') == '1'       # stress knob: every round shares a prepared geometry
         tcs = [2, 2, 3, 4, 4, 6, 8, 8, 12, 16]
         for i in range(nr):
-            rounds.append(gen_round(ctx.rng, tcs[i % len(tcs)], ctx.rng.choice([12, 25, 40]) if ctx.quick else ctx.rng.choice([25, 40, 60]), use_spq=(all_spq or i % 8 == 5)))
+            rounds.append(gen_round(ctx.rng, tcs[i % len(tcs)], ctx.rng.choice([12, 25, 40]) if ctx.quick else ctx.rng.choice([25, 40, 60]), use_spq=(all_spq or i % 3 == 1)))
     par = max(2, NPROC // 4)
     results = {}
     with ThreadPoolExecutor(max_workers=par) as ex:
@@ -614,6 +616,9 @@ def run(ctx):
         for need in (2, 16):
             if not dist['threads'].get(need):
                 ctx.broken.append(dict(kind='generator', name='distribution', detail='no round with %d threads' % need))
+        if sum(1 for r in rounds if r.get('use_spq')) < 20:
+            ctx.broken.append(dict(kind='generator', name='distribution', detail='fewer than 20 rounds share a prepared geometry'))
+        ctx.notes['rounds_sharing_a_prepared_geometry'] = sum(1 for r in rounds if r.get('use_spq'))
         for need in ('churn', 'reader', 'private'):
             if not dist['kinds'].get(need):
                 ctx.broken.append(dict(kind='generator', name='distribution', detail='no thread of kind %s' % need))
